@@ -11,7 +11,7 @@ RULE = ('operation histories (store / deletion requests / resubmission / neighbo
         'the abstract specification (lib/absstore.py, written from the property texts). ')
 
 
-def run_store(prop, theorems, focus_rule, oracles, quick=(30, 25, 8), thorough=(600, 70, 12), assumptions=None, relevant=None, extra=None):
+def run_store(prop, theorems, focus_rule, oracles, quick=(30, 25, 8), thorough=(1500, 70, 12), assumptions=None, relevant=None, extra=None):
     c = Check(prop, theorems, assumptions=assumptions or [])
     c.rule = RULE + focus_rule
     c.setup()
